@@ -113,3 +113,63 @@ Definition vrel (vs : list string) (e : env) (vec : list value) : Prop :=
             | Some i => nth_error vec i = Some (lookup x e)
             | None => lookup x e = VNull
             end.
+
+(* ---------- coverage, structurally: every variable the code touches has a slot ---------- *)
+Section Cov.
+Variable clos : list clodef.
+Variable vs : list string.
+Definition mems (xs : list string) : bool := forallb (fun x => mem x vs) xs.
+Fixpoint cov_expr (e : expr) {struct e} : bool :=
+  match e with
+  | ELit _ | EPanic => true
+  | EClosure id => match nth_error clos id with Some cd => mems (cuses cd) | None => true end
+  | EVar x | EPostInc x => mem x vs
+  | EBin _ a b | EAnd a b | EOr a b | ESame a b => cov_expr a && cov_expr b
+  | ENot a | EMsg a | EClass a | ENew _ a => cov_expr a
+  | EAssign x e => mem x vs && cov_expr e
+  | EArr a | ECall _ a => cov_args a
+  | EIdx x i | EIdxInc _ x i => mem x vs && cov_expr i
+  | ECallV f a => cov_expr f && cov_args a
+  | EMatch s m => cov_expr s && cov_arms m
+  end
+with cov_args (a : args) {struct a} : bool :=
+  match a with ANil => true | ACons e r => cov_expr e && cov_args r end
+with cov_arms (m : marms) {struct m} : bool :=
+  match m with
+  | MNil => true
+  | MDefault e => cov_expr e
+  | MCons c e r => cov_args c && cov_expr e && cov_arms r
+  end.
+Definition cov_opt (x : option string) : bool := match x with Some v => mem v vs | None => true end.
+Fixpoint cov_stmt (s : stmt) {struct s} : bool :=
+  match s with
+  | SSkip | SBreak _ | SContinue _ | SReturn None => true
+  | SSeq a b => cov_stmt a && cov_stmt b
+  | SExpr e | SEcho e | SReturn (Some e) | SThrow e => cov_expr e
+  | SPush x e | SSetIdx x _ e => mem x vs && cov_expr e
+  | SIf c t ei e => cov_expr c && cov_stmt t && cov_elifs ei && cov_stmt e
+  | SWhile c b | SDoWhile b c => cov_expr c && cov_stmt b
+  | SFor i c inc b => cov_args i && cov_expr c && cov_args inc && cov_stmt b
+  | SForeach a k v b => cov_expr a && cov_opt k && mem v vs && cov_stmt b
+  | SSwitch c cl => cov_expr c && cov_clauses cl
+  | SStatic x _ => mem x vs
+  | STry b cs f => cov_stmt b && cov_catches cs && cov_stmt f
+  end
+with cov_elifs (l : elifs) {struct l} : bool :=
+  match l with EINil => true | EICons c b r => cov_expr c && cov_stmt b && cov_elifs r end
+with cov_clauses (l : clauses) {struct l} : bool :=
+  match l with
+  | CLNil => true
+  | CLCase e b r => cov_expr e && cov_stmt b && cov_clauses r
+  | CLDefault b r => cov_stmt b && cov_clauses r
+  end
+with cov_catches (l : catches) {struct l} : bool :=
+  match l with CTNil => true | CTCons _ x b r => cov_opt x && cov_stmt b && cov_catches r end.
+End Cov.
+
+(* every function, closure and the main script: parameters (and captures) and body within the table *)
+Definition cov_prog (p : prog) : bool :=
+  cov_stmt (closures p) (vars_stmt (main p) []) (main p) &&
+  forallb (fun d => forallb (fun q => mem (fst q) (fun_vars d)) (fparams d) && cov_stmt (closures p) (fun_vars d) (fbody d)) (funcs p) &&
+  forallb (fun c => forallb (fun q => mem (fst q) (clo_vars c)) (cparams c) && forallb (fun x => mem x (clo_vars c)) (cuses c) &&
+                    cov_stmt (closures p) (clo_vars c) (cbody c)) (closures p).
